@@ -58,6 +58,8 @@ Checks(e) ==
     [] e.ev = "krbig" -> KrBigChecks(e)
     [] e.ev = "lock" -> LockChecks(e)
     [] e.ev = "pub"  -> PubChecks(e)
+    \* the process running this scenario was killed by the code under test (abort, panic across the C boundary)
+    [] e.ev = "crash" -> {<<l, e.prop \o "_process_killed_in_the_code_under_test">>}
     [] OTHER         -> {<<l, "TOOL_unknown_event">>}
 
 Step == /\ l <= N /\ viol' = viol \cup Checks(Rec[l]) /\ l' = l + 1
